@@ -190,19 +190,59 @@ def kh_reference(entries, host, addr, port):
     return [ported, (plain[0], plain[1], plain[2] | ported[2])], True
 
 
+def kh_ip_quirk(entries, host, addr, port):
+    """Classifier only (never an oracle): the result if an address-literal
+       pattern standing in a line that also has a wildcard / negated pattern
+       matched by address value, ignoring the port of the lookup"""
+
+    ip = _ip(addr) if addr else _ip(host)
+
+    def select(names):
+        res = (set(), set(), set())
+        for ent in entries:
+            if ent.get('damaged'):
+                continue
+            if ent.get('hashed') or \
+                    not any(c in p for p in ent['pats'] for c in '*?!/'):
+                hit = entry_match(ent, names, None)
+            else:
+                pos = neg = False
+                for p in ent['pats']:
+                    q = p.lstrip('!')
+                    m = (ip is not None and _ip(q) == ip) if _ip(q) \
+                        else pat_match(q, names, None)
+                    if p.startswith('!'):
+                        neg = neg or m
+                    else:
+                        pos = pos or m
+                hit = pos and not neg
+            if hit:
+                res[{None: 0, 'cert-authority': 1,
+                     'revoked': 2}[ent['marker']]].add(ent['key'])
+        return res
+
+    res = select([f'[{host}]:{port}', f'[{addr}]:{port}' if addr else ''])
+    if not (res[0] or res[1]):
+        res = select([host, addr])
+    return res
+
+
 # ------------------------------------------------------------------ keys
 
 _KEYS = None
+NREG = 4
 
 
 def keys():
-    """4 key pairs per worker: (keytype, base64, blob, SSHKey public)"""
+    """NREG regular keys + 2 reserved for damaged lines, per worker:
+       (keytype, base64, blob, SSHKey public)"""
 
     global _KEYS
     if _KEYS is None:
         _KEYS = []
         for alg in ('ssh-ed25519', 'ecdsa-sha2-nistp256', 'ssh-ed25519',
-                    'ecdsa-sha2-nistp384', 'ssh-ed25519'):
+                    'ecdsa-sha2-nistp384', 'ecdsa-sha2-nistp256',
+                    'ssh-ed25519'):
             k = asyncssh.generate_private_key(alg)
             line = k.export_public_key().decode().split()
             pub = asyncssh.import_public_key(' '.join(line[:2]))
@@ -224,14 +264,19 @@ def mpint(n):
 def damaged_key(rng):
     """(keytype, base64 text, how) with a key field that cannot be parsed"""
 
-    kt, b64, blob, _ = rng.choice(keys())
+    # derived from a key no regular entry uses: should a parser accept the
+    # damaged text leniently (e.g. by ignoring non-alphabet characters), the
+    # line still cannot change what the *other* lines contribute
+    kt, b64, blob, _ = keys()[NREG + rng.randrange(2)]
     how = rng.choice(['b64_chars', 'b64_pad', 'truncated', 'unknown_alg',
                       'rsa', 'ec', 'dsa', 'ed25519'])
     b = lambda x: base64.b64encode(x).decode()
     if how == 'b64_chars':
-        i = rng.randrange(4, len(b64) - 4)
-        return kt, b64[:i] + rng.choice('!$%()') * rng.choice([1, 2, 4]) + \
-            b64[i:], how
+        # 1-3 characters *replaced* by non-alphabet ones: bad both for a
+        # strict decoder and for one that skips foreign characters
+        i = rng.randrange(4, len(b64) - 8)
+        k = rng.choice([1, 2, 3])
+        return kt, b64[:i] + rng.choice('!$%()') * k + b64[i+k:], how
     if how == 'b64_pad':
         core = b64.rstrip('=')
         while len(core) % 4 != 1:
@@ -328,7 +373,7 @@ def gen_pattern(rng, allow_cidr, allow_port):
 
 def gen_kh_entries(rng, cidr, ports, n=None, hashed_ok=True):
     n = n or rng.randint(1, 8)
-    nk = len(keys())
+    nk = NREG
     entries = []
     for _ in range(n):
         marker = rng.choice([None, None, None, 'cert-authority', 'revoked'])
@@ -423,11 +468,11 @@ def gen_query(rng, entries, ports):
         addr = rng.choice([p for p in pool if _ip(p)])
     else:
         addr = rng.choice(ADDRS)
-    if _ip(host) is not None and rng.random() < 0.5:
-        addr = rng.choice(['', host])
-    # canonical text form only (OpenSSH matches addresses textually)
+    # canonical text form only (OpenSSH matches addresses textually); a host
+    # given as an address literal *is* the address
     if _ip(host) is not None:
         host = str(_ip(host))
+        addr = rng.choice(['', host])
     port = None
     if ports and rng.random() < 0.55:
         cand = [int(m.group(1)) for ent in entries for p in ent['pats']
@@ -490,7 +535,10 @@ def run_kh(case, mon, viol, info, texts):
                 if ambiguous and got == blobs(kh_reference(
                         entries, host, addr, None)[0][0]):
                     mech = 'revoked_port_entry_dropped_by_fallback'
-                elif port and got != blobs(want[0]):
+                elif port and got == blobs(kh_ip_quirk(entries, host, addr,
+                                                       port)):
+                    mech = 'address_pattern_ignores_port_in_wildcard_line'
+                elif port:
                     mech = 'known_hosts_port_result_differs'
                 elif cidr:
                     mech = 'known_hosts_cidr_result_differs'
@@ -553,8 +601,11 @@ def run_kh(case, mon, viol, info, texts):
                     else f'{name}_file_rejected',
                     'detail': f'{type(exc).__name__}: {exc}; file={vtext!r}'})
                 continue
+            reserved = {k[2] for k in keys()[NREG:]}
             for (host, addr, port), want in zip(queries, base):
                 got, _ = kh_result(vkh, host, addr, port)
+                if damaged:
+                    got = tuple(s - reserved for s in got)
                 mon['kh_metamorphic'] += 1
                 if got != want:
                     viol.append({
@@ -638,8 +689,12 @@ def run_khgen(case, mon, viol, info, texts):
                 got, extra = kh_result(kh, host, '', port)
                 mon['kh_keygen_vs_asyncssh'] += 1
                 if got != blobs(sel) or extra:
+                    mech = 'known_hosts_differs_from_ssh_keygen'
+                    if port and got == blobs(kh_ip_quirk(entries, host, '',
+                                                         port)):
+                        mech = 'address_pattern_ignores_port_in_wildcard_line'
                     viol.append({
-                        'mechanism': 'known_hosts_differs_from_ssh_keygen',
+                        'mechanism': mech,
                         'detail': f'ssh-keygen -F {name!r} selects lines '
                                   f'{found} i.e. key sets {_short(blobs(sel))}'
                                   f', match_known_hosts(host={host!r}, '
@@ -688,7 +743,7 @@ def gen_from(rng):
 
 
 def gen_ak_entry(rng, lineno):
-    nk = len(keys())
+    nk = NREG
     ent = {'key': rng.randrange(nk), 'opts': [],
            'comment': rng.choice(['', 'user@host', 'my key 1'])}
     opts = ent['opts']
@@ -827,7 +882,7 @@ def ak_reference(entries, key, host, addr, principals, ca, counts=None):
 
 
 def gen_ak_query(rng, entries):
-    nk = len(keys())
+    nk = NREG
     ent = rng.choice(entries)
     key = ent['key'] if rng.random() < 0.8 else rng.randrange(nk)
     ca = any(n == 'cert-authority' for n, _ in ent['opts'])
@@ -931,7 +986,7 @@ def run_ak(case, mon, viol, info, texts):
 
 def gen_cases(tier, seed):
     rng = random.Random(f'c17-{seed}')
-    mult = 1 if tier == 'quick' else 12
+    mult = 3 if tier == 'quick' else 40
     cases = []
     for _ in range(150 * mult):
         cases.append(dict(kind='kh', n=8, queries=25,
